@@ -31,7 +31,7 @@ func (c *SourceListPage) WriteHTMLTo(w io.Writer) (int64, error) {
 	}
 
 	for _, source := range c.document.Sources() {
-		table = append(table, NewSourceInList(c.document, source))
+		table = append(table, NewSourceInList(c.document, source, c.placesMap))
 	}
 
 	return core.NewPage("Sources", core.NewComponents(
